@@ -1275,3 +1275,23 @@ def case_slices_split():
 
 
 CASES["slices_split"] = case_slices_split
+
+
+def case_two_ifs_same_name():
+    """two If nodes with a constant condition whose branches both compute a foldable value named `t` (names are local to a subgraph):
+    the model is valid and runs; optimize() must return a model that computes the same"""
+    def branch(k, out):
+        return helper.make_graph([
+            helper.make_node("Constant", [], ["c"], value=numpy_helper.from_array(np.array([float(k)], dtype=np.float32), "c")),
+            helper.make_node("Add", ["c", "c"], ["t"]),
+            helper.make_node("Add", ["x", "t"], [out])], "b", [], [vi(out, TensorProto.FLOAT, [1])])
+    nodes = [helper.make_node("Constant", [], ["cond"], value=numpy_helper.from_array(np.array(True), "cond"))]
+    for i in (0, 1):
+        nodes.append(helper.make_node("If", ["cond"], [f"y{i}"], then_branch=branch(i + 1, f"o{i}"), else_branch=branch(i + 5, f"o{i}")))
+    nodes.append(helper.make_node("Add", ["y0", "y1"], ["y"]))
+    g = helper.make_graph(nodes, "g", [vi("x", TensorProto.FLOAT, [1])], [vi("y", TensorProto.FLOAT, [1])])
+    m = helper.make_model(g, opset_imports=[helper.make_opsetid("", 18)], ir_version=9)
+    return check(m, [{"x": np.array([1.0], np.float32)}], "two constant-condition If nodes whose branches both fold a value named 't'")
+
+
+CASES["two_ifs_same_name"] = case_two_ifs_same_name
